@@ -595,18 +595,19 @@ def gonality_theoretical_bounds(graph: CFGraph) -> Dict[str, int]:
     }
     
     # Compute tighter bounds using the theoretical results
+    # Only quantities that are proven bounds on the gonality take part in the aggregate:
+    # min(3, n-1) is not the vertex connectivity (it reported 2 for every tree on >= 4 vertices,
+    # whose gonality is 1), and a treewidth heuristic + 1 or a scramble-number estimate are not
+    # upper bounds on the gonality (they undercut it on some 7-vertex graphs).
     lower_bound_candidates = [
         bounds['trivial_lower_bound'],
         bounds['minimum_degree_bound'],
         bounds['bramble_order_bound'] - 1,  # bramble order - 1 = treewidth lower bound
-        max(1, bounds['connectivity_bound'] - 1)
     ]
     
     upper_bound_candidates = [
         bounds['trivial_upper_bound'],
         bounds['independence_upper_bound'],
-        bounds['treewidth_lower_bound'] + 1,  # rough upper bound from treewidth
-        bounds['scramble_bound']
     ]
     
     bounds['lower_bound'] = max(lower_bound_candidates)
